@@ -195,6 +195,12 @@ func (c *conn) OnClosed(fn func()) (unsub func(), _ bool) {
 	// Add listener
 	id := c.addClosed(fn1)
 	if id == 0 {
+		// A concurrent close can call the listener between the insert and the second closed check
+		// in addClosed. Claim the once-flag: if it is taken already, the listener has been notified,
+		// so report the registration as successful instead of "already closed".
+		if !called.CompareAndSwap(false, true) {
+			return func() {}, true
+		}
 		return nil, false
 	}
 
